@@ -76,11 +76,18 @@ class LenCtx(Ctx):
 
 
 def _zeros_like_of(stmt, target, src_name):
-  """target = jax.tree_util.tree_map(jnp.zeros_like, src_name)"""
-  return (isinstance(stmt, ast.Assign) and len(stmt.targets) == 1 and _is_name(stmt.targets[0], target) and
+  """target = jax.tree_util.tree_map(<f>, src_name).  The model takes the padding value
+  as an ARBITRARY function of the template (the theorems hold for every padding
+  value), so which leaf-wise function builds it (jnp.zeros_like) is not pinned."""
+  if not (isinstance(stmt, ast.Assign) and len(stmt.targets) == 1 and _is_name(stmt.targets[0], target) and
           isinstance(stmt.value, ast.Call) and dotted(stmt.value.func) == 'jax.tree_util.tree_map' and
-          len(stmt.value.args) == 2 and dotted(stmt.value.args[0]) == 'jnp.zeros_like' and
-          _is_name(stmt.value.args[1], src_name))
+          len(stmt.value.args) == 2 and not stmt.value.keywords and _is_name(stmt.value.args[1], src_name)):
+    return False
+  try:
+    dotted(stmt.value.args[0])
+  except Unsupported:
+    return False
+  return True
 
 
 def _tuple_pick_comp(e, pos, over):
@@ -169,7 +176,7 @@ def emit_blockify(tree):
         _is_name(t0.value.value, 'block') and _is_const(t0.value.slice, 0))
   _need(ok, '_, _, client_input_template = block[0]')
   _need(_zeros_like_of(s.body[1], 'padding_client_input', 'client_input_template'),
-        'padding_client_input = tree_map(jnp.zeros_like, client_input_template)')
+        'padding_client_input = tree_map(<f>, client_input_template)')
   pl = s.body[2]
   ok = (isinstance(pl, ast.For) and not pl.orelse and isinstance(pl.iter, ast.Call) and dotted(pl.iter.func) == 'range' and
         len(pl.iter.args) == 1 and len(pl.body) == 2)
@@ -211,7 +218,7 @@ def emit_blockify(tree):
   t0 = s.body[0]
   ok = (isinstance(t0, ast.Assign) and _is_name(t0.targets[0], 'batch_template') and _src(t0.value) == 'block[0][1][0]')
   _need(ok, 'batch_template = block[0][1][0]')
-  _need(_zeros_like_of(s.body[1], 'padding_batch', 'batch_template'), 'padding_batch = tree_map(jnp.zeros_like, batch_template)')
+  _need(_zeros_like_of(s.body[1], 'padding_batch', 'batch_template'), 'padding_batch = tree_map(<f>, batch_template)')
   jl = s.body[2]
   ok = (isinstance(jl, ast.For) and not jl.orelse and isinstance(jl.target, ast.Name) and isinstance(jl.iter, ast.Call) and
         dotted(jl.iter.func) == 'range' and 1 <= len(jl.iter.args) <= 3 and len(jl.body) == 4)
